@@ -459,6 +459,10 @@ func buildReplay(p *Program, units []*UnitResult, o *Obligation, rf *replayFile,
 		rf.Note = "no replay specification recorded for this obligation"
 		return false
 	}
+	if strings.Contains(o.Name, "sigvalid(") || strings.Contains(o.Name, "ishash(") || strings.Contains(o.Text, "sigvalid(") || strings.Contains(o.Text, "ishash(") {
+		rf.Note = "the obligation mentions a ghost predicate (sigvalid / ishash) that executable code cannot evaluate: no replay"
+		return false
+	}
 	// 1. scalar values
 	want := map[string]bool{}
 	for _, t := range rs.Params {
